@@ -298,32 +298,35 @@ class DeepInliner(Inliner):
 
     # ------------------------------------------------------------------ resolution
     def _resolve(self, ctx: FuncInfo, call: ast.Call) -> FuncInfo | None:
-        got = super()._resolve(ctx, call)
-        if got is not None:
-            return got
-        # a callable handed in as an argument (`convert(options.pop(key))` with convert := self._labels) has been substituted into
-        # the call: resolve the rewritten call in the entry point's own context
+        # a callable handed in as an argument or taken from a table (`convert(options.pop(key))` with convert := self._labels) has been
+        # substituted into the call: the node it was copied from no longer says what is called.  Resolve the rewritten call in the
+        # entry point's own context first.
         root = getattr(self, "root", None)
         src = getattr(call, "_src", None)
-        if root is None or src is None or not isinstance(call.func, ast.Attribute) or ast.dump(call.func) == ast.dump(src[1].func if isinstance(src[1], ast.Call) else call.func):
-            return None
-        try:
-            cs, how = self.T.callees(root, call, byname_fallback=False)
-        except Exception:  # noqa: BLE001
-            return None
-        cs = [c for c in cs if not c.is_abstract]
-        return cs[0] if len(cs) == 1 and how == "repo" else None
+        rewritten = src is not None and isinstance(src[1], ast.Call) and isinstance(call.func, ast.Attribute) and ast.dump(call.func) != ast.dump(src[1].func)
+        if root is not None and rewritten:
+            try:
+                cs, how = self.T.callees(root, call, byname_fallback=False)
+            except Exception:  # noqa: BLE001
+                cs, how = [], ""
+            cs = [c for c in cs if not c.is_abstract]
+            if len(cs) == 1 and how == "repo":
+                return cs[0]
+            if isinstance(src[1].func, ast.Name):
+                return None  # the original was a call of a variable: nothing reliable is known about the target
+        return super()._resolve(ctx, call)
 
     # ------------------------------------------------------------------ local closures
     def _try(self, ctx: FuncInfo, call: ast.AST, form: str, taken: set[str], origin: dict, stack: tuple[str, ...]):
         if isinstance(call, ast.Call) and isinstance(call.func, ast.Name) and len(stack) <= self.max_depth:
-            callee = self._resolve(ctx, call)
             local = getattr(self, "local_defs", {}).get(call.func.id)
-            if callee is not None and callee.outer is not None and not isinstance(callee.node, ast.Lambda) and local is not None and callee.name == local.name:
-                key = f"{callee.fq}@view"
+            callee = self._resolve(ctx, call) if local is not None else None
+            if local is not None and (callee is None or (callee.outer is not None and not isinstance(callee.node, ast.Lambda) and callee.name == local.name)):
+                root = getattr(self, "root", ctx)
+                key = f"{(callee.fq if callee is not None else root.fq + '.' + local.name)}@view"
                 if key in stack:
                     return None
-                syn = FuncInfo(name=callee.name, qualname=callee.qualname, node=local, module=callee.module, cls=None, decorators=[], outer=callee.outer)
+                syn = FuncInfo(name=local.name, qualname=(callee.qualname if callee is not None else f"{root.qualname}.{local.name}"), node=local, module=(callee.module if callee is not None else root.module), cls=None, decorators=[], outer=(callee.outer if callee is not None else root))
                 if not self._eligible(ctx, syn, form):
                     return None
                 got = self._expand(ctx, call, syn, taken, origin, stack + (key,))
@@ -569,6 +572,8 @@ class DeepInliner(Inliner):
                 got = self._try(ctx, s.value, "assign", taken, origin, stack)
                 if got is not None:
                     prefix, body = got
+                    callee_ = self._resolve(ctx, s.value) if isinstance(s.value, ast.Call) else None
+                    inner_stack = stack + ((callee_.fq,) if callee_ is not None else ())
                     if body and isinstance(body[-1], ast.Return) and not any(isinstance(x, ast.Return) for st in body[:-1] for x in ast.walk(st)):
                         last = body.pop()
                         s.value = last.value if last.value is not None else ast.Constant(value=None)
@@ -585,7 +590,7 @@ class DeepInliner(Inliner):
                         if not (body and isinstance(body[-1], (ast.Return, ast.Raise))):
                             body = body + [ast.copy_location(ast.Return(value=None), s)]
                         body, _term = exit_rewrite(body, assign)
-                        out += prefix + self._renormalise(ctx, body, taken, origin, stack)
+                        out += prefix + self._renormalise(ctx, body, taken, origin, inner_stack)
                     done = True
             elif isinstance(s, ast.Return) and s.value is not None:
                 got = self._try(ctx, s.value, "return", taken, origin, stack)
@@ -783,6 +788,98 @@ def fuse_loops(fn: ast.FunctionDef) -> bool:
     return changed
 
 
+# --------------------------------------------------------------------------- loops over literal tables
+
+
+def unroll_literal_loops(fn: ast.FunctionDef) -> bool:
+    """`for k, (a, b) in {"x": (p, q), "y": (r, s)}.items(): body`  ->  body[k:="x", a:=p, b:=q]; body[k:="y", a:=r, b:=s]
+
+    Small translation tables given as dict / list / tuple literals (directly or through a local bound once) are unrolled, so that the
+    option names and converters they hold become visible as constants.  Loops with break / continue / else are left alone."""
+    set_parents(fn)
+    binds = _bindings(fn)
+    changed = False
+
+    def literal(e: ast.expr):
+        if isinstance(e, ast.Name) and len(binds.get(e.id, [])) == 1 and not _mutated(fn, e.id):
+            b = binds[e.id][0]
+            p = getattr(b, "_parent", None)
+            if isinstance(p, ast.Assign) and len(p.targets) == 1 and p.targets[0] is b:
+                return p.value
+            if isinstance(p, ast.AnnAssign) and p.target is b and p.value is not None:
+                return p.value
+        return e
+
+    def elements(it: ast.expr):
+        how = "self"
+        if isinstance(it, ast.Call) and isinstance(it.func, ast.Attribute) and it.func.attr in ("items", "keys", "values") and not it.args:
+            how, it = it.func.attr, it.func.value
+        lit = literal(it)
+        if isinstance(lit, ast.Dict) and lit.keys and all(k is not None for k in lit.keys) and len(lit.keys) <= 8:
+            if how in ("self", "keys"):
+                return list(lit.keys)
+            if how == "values":
+                return list(lit.values)
+            return [ast.Tuple(elts=[k, v], ctx=ast.Load()) for k, v in zip(lit.keys, lit.values)]
+        if how == "self" and isinstance(lit, (ast.List, ast.Tuple)) and lit.elts and len(lit.elts) <= 8 and not any(isinstance(x, ast.Starred) for x in lit.elts) and all(isinstance(x, (ast.Tuple, ast.Constant)) for x in lit.elts):
+            return list(lit.elts)
+        return None
+
+    def match(tgt: ast.expr, val: ast.expr, env: dict) -> bool:
+        if isinstance(tgt, ast.Name):
+            env[tgt.id] = val
+            return True
+        if isinstance(tgt, (ast.Tuple, ast.List)) and isinstance(val, (ast.Tuple, ast.List)) and len(tgt.elts) == len(val.elts) and not any(isinstance(x, ast.Starred) for x in [*tgt.elts, *val.elts]):
+            return all(match(t, v, env) for t, v in zip(tgt.elts, val.elts))
+        return False
+
+    for loop in [n for n in _walk_own(fn.body) if isinstance(n, ast.For)]:
+        if loop.orelse or _own_breaks(loop) or _loose_jumps(loop.body):
+            continue
+        els = elements(loop.iter)
+        if els is None:
+            continue
+        envs = []
+        for el in els:
+            env: dict = {}
+            if not match(loop.target, el, env):
+                envs = None
+                break
+            envs.append(env)
+        if not envs:
+            continue
+        names = set(envs[0])
+        if any(isinstance(x, ast.Name) and x.id in names and isinstance(x.ctx, (ast.Store, ast.Del)) for st in loop.body for x in ast.walk(st)):
+            continue
+        new_body: list[ast.stmt] = []
+        for env in envs:
+            class Sub(ast.NodeTransformer):
+                def visit_Name(self, node, env=env):  # noqa: N802
+                    if isinstance(node.ctx, ast.Load) and node.id in env:
+                        return _recopy(env[node.id])
+                    return node
+
+                def visit_Lambda(self, node):  # noqa: N802
+                    return node
+
+            new_body += [Sub().visit(_recopy(st)) for st in loop.body]
+        par = getattr(loop, "_parent", None)
+        done = False
+        for fld in ("body", "orelse", "finalbody"):
+            blk = getattr(par, fld, None)
+            if isinstance(blk, list) and loop in blk:
+                i = blk.index(loop)
+                blk[i:i + 1] = new_body
+                done = True
+                break
+        if done:
+            changed = True
+            ast.fix_missing_locations(fn)
+            set_parents(fn)
+            binds = _bindings(fn)
+    return changed
+
+
 # --------------------------------------------------------------------------- unique loop / comprehension variables
 
 
@@ -882,6 +979,8 @@ def deep_view(repo: Repo, fi: FuncInfo, types: Types, allow=None) -> FuncInfo:
         inlined += inl.inlined
         inl.inlined = []
         ast.fix_missing_locations(node)
+        if unroll_literal_loops(node):
+            continue
         if ast.dump(node) == before:
             break
     ast.fix_missing_locations(node)
